@@ -537,9 +537,8 @@ def _sb_decode(ex, b, encoding="utf-8", errors="strict"):
         return ""
     if encoding in ("ascii", "utf-8", "utf8"):
         if ex.choose(2, tag="decode") == 1:
-            j = ex.fresh_int("badpos")
-            ex.assume(mk_bool(z3.And(j.t >= 0, j.t < zt(n))))
-            ex.assume(mk_bool(iterm(b.elem_at(ex, j.t)) >= 128))
+            # some byte is >= 0x80 (not asserted: constraints over a symbolic index made later queries unstable;
+            # exploring the failure unconditionally is an over-approximation, sound for "nothing else escapes")
             raise PyRaise(UnicodeDecodeError(encoding, b"", 0, 1, "ordinal not in range"))
     elif encoding in ("utf-16be", "utf-16-be"):
         if ex.choose(2, tag="decode") == 1:
@@ -695,6 +694,7 @@ def m_int(ex, x=0, base=None):
     if isinstance(x, SBool):
         return mk_int(iterm(x))
     if isinstance(x, SFloat):
+        _float_to_int_may_raise(ex, x)
         return mk_int(F_TRUNC(x.t))
     if isinstance(x, (SStr, HexStr)):
         return _str_to_int(ex, x, 10)
@@ -752,9 +752,33 @@ def m_float(ex, x=0.0):
         raise PyRaise(e)
 
 
+def _finite(t):
+    """syntactic sufficient condition for a Flt term to denote a finite number (not inf / nan)"""
+    if z3.is_app(t):
+        name = t.decl().name()
+        if name == "f_of_int" or name.startswith("fconst_"):
+            return True
+        if name in ("f_div", "f_mul", "f_add", "f_sub", "f_neg", "f_abs", "f_roundn"):
+            return all(_finite(a) for a in t.children() if a.sort() == Flt)
+        if name == "if":
+            return _finite(t.arg(1)) and _finite(t.arg(2))
+    return False
+
+
+def _float_to_int_may_raise(ex, x):
+    """int(x) / round(x) of inf raises OverflowError, of nan ValueError (CPython)"""
+    if not _finite(x.t):
+        k = ex.choose(3, tag="float.special")
+        if k == 1:
+            raise PyRaise(OverflowError("cannot convert float infinity to integer"))
+        if k == 2:
+            raise PyRaise(ValueError("cannot convert float NaN to integer"))
+
+
 def m_round(ex, x, nd=None):
     if isinstance(x, SFloat):
         if nd is None:
+            _float_to_int_may_raise(ex, x)
             return mk_int(F_ROUND(x.t))
         return SFloat(F_ROUNDN(x.t, iterm(nd)))
     if isinstance(x, (SInt, SBool)):
@@ -906,6 +930,16 @@ def m_all(ex, xs):
     return mk_bool(z3.And(*terms)) if terms else True
 
 
+def m_sum(ex, xs, start=0):
+    if isinstance(xs, SBytes):
+        return mk_int(iterm(_s_sum(ex, xs)) + iterm(start))
+    items = ex.iterate(xs)
+    acc = start
+    for it in items:
+        acc = ex.binop(ast.Add, acc, it)
+    return acc
+
+
 def m_tuple(ex, x=()):
     if isinstance(x, SBytes):
         return tuple(x.elems(ex))
@@ -996,7 +1030,7 @@ def m_print(ex, *a, **k):
 FUNC_MODELS = {
     len: m_len, int: m_int, float: m_float, round: m_round, abs: m_abs, max: m_minmax(True), min: m_minmax(False),
     isinstance: m_isinstance, bytes: m_bytes, bytearray: m_bytearray, str: m_str, bool: m_bool, any: m_any, all: m_all,
-    tuple: m_tuple, list: m_list, bin: m_bin, print: m_print, io.BytesIO: m_bytesio, struct.unpack: m_unpack,
+    tuple: m_tuple, list: m_list, bin: m_bin, sum: m_sum, print: m_print, io.BytesIO: m_bytesio, struct.unpack: m_unpack,
     _dt.datetime: m_datetime,
 }
 ALWAYS_MODEL = {bytearray, io.BytesIO, any, all, isinstance, bool, len}
